@@ -176,3 +176,81 @@ func c04MultiSpace() *core.Space {
 		},
 	}
 }
+
+// Identifiers inside annotation comments (class, parent, field, generic and its constraint, alias names): go-to-definition
+// asked on each of them must answer ranges that cover an identifier spelled like the one asked about.
+var c04AnnotationDocs = []string{
+	"---@class Animal\n---@field name string\nlocal Animal = {}\n---@class Dog : Animal\n---@field tail number\nlocal Dog = {}\n---@generic T : Animal\n---@param x T\n---@return T\nlocal function f(x) return x end\n---@type Dog\nlocal pet = f(Dog)\nprint(pet.name, pet.tail)\n",
+	"---@alias Mode string\n---@generic K : Mode, V\n---@param k K\n---@param v V\n---@return table<K, V>\nlocal function pair(k, v) return {[k] = v} end\n---@type Mode\nlocal m = \"r\"\nprint(pair(m, 1))\n",
+	"    ---@class Shape @c\n    ---@field area fun(self: Shape): number\n    local Shape = {}\n    ---@generic S : Shape\n    ---@param s S @the shape\n    ---@return S, number\n    local function measure(s) return s, 1 end\n    print(measure(Shape))\n",
+}
+
+var reAnnWord = regexp.MustCompile(`[A-Za-z_][A-Za-z0-9_]*`)
+
+func c04AnnotationSpace() *core.Space {
+	n := int64(len(c04AnnotationDocs) * len(c04EOLs))
+	name := "identifiers-inside-annotation-comments"
+	skip := map[string]bool{"class": true, "field": true, "generic": true, "param": true, "return": true, "type": true, "alias": true, "string": true, "number": true,
+		"table": true, "fun": true, "self": true, "c": true, "the": true, "shape": true}
+	return &core.Space{
+		Name: name, N: n, Chunk: 3, RecycleEvery: 10,
+		Describe: func(i int64) interface{} {
+			return map[string]interface{}{"m.lua": strings.ReplaceAll(c04AnnotationDocs[i/int64(len(c04EOLs))], "\n", c04EOLs[i%int64(len(c04EOLs))].s)}
+		},
+		Run: func(i int64, r *core.Result) {
+			eol := c04EOLs[i%int64(len(c04EOLs))]
+			text := strings.ReplaceAll(c04AnnotationDocs[i/int64(len(c04EOLs))], "\n", eol.s)
+			r.Evaluated++
+			r.Nontrivial++
+			root := drv.NewWorkspace(map[string]string{"m.lua": text})
+			defer drv.RemoveWorkspace(root)
+			s, err := drv.Start(root, drv.Options{InitOptions: drv.AllChecks()})
+			if err != nil {
+				r.Fail(name, i, "server-start-failed", text, map[string]interface{}{"error": err.Error()})
+				return
+			}
+			defer s.Close()
+			s.Open("m.lua", text)
+			lines := textref.Lines(text)
+			for ln, l := range lines {
+				lt := text[l.Start:l.End]
+				at := strings.Index(lt, "---@")
+				if at < 0 {
+					continue
+				}
+				for _, m := range reAnnWord.FindAllStringIndex(lt[at:], -1) {
+					w := lt[at+m[0] : at+m[1]]
+					if skip[w] {
+						continue
+					}
+					col := textref.Units(lt[:at+m[0]])
+					locs, err := s.Definition("m.lua", ln, col)
+					r.Transitions++
+					if err != nil {
+						continue
+					}
+					for _, loc := range locs {
+						if s.Rel(loc.URI) != "m.lua" {
+							continue
+						}
+						r.States++
+						so, c1, ok1 := textref.Offset(text, textref.Pos{Line: loc.Range.Start.Line, Char: loc.Range.Start.Character})
+						eo, c2, ok2 := textref.Offset(text, textref.Pos{Line: loc.Range.End.Line, Char: loc.Range.End.Character})
+						got := ""
+						if ok1 && ok2 && !c1 && !c2 && so <= eo {
+							got = text[so:eo]
+						}
+						if got == w {
+							r.Outcome("definition-of-annotation-identifier-covers-it")
+							continue
+						}
+						sig := "definition-of-an-annotation-identifier-covers-other-text"
+						coreS := fmt.Sprintf("%s | %s | asked %q at %d:%d | answered %s %q | eol %s", sig, strings.TrimSpace(lt), w, ln, col, loc.Range, got, eol.name)
+						r.Outcome(sig)
+						r.Fail(name, i, sig, coreS, map[string]interface{}{"failure_core": coreS, "m.lua": text, "asked": w, "position": fmt.Sprintf("%d:%d", ln, col), "range": loc.Range.String(), "text_under_range": got})
+					}
+				}
+			}
+		},
+	}
+}
